@@ -821,3 +821,128 @@ def _compact_at(repo, rep, fn, construct, all_methods, syms, R):
         rep.finding("L.compact_timeslot", construct, k, msg, witness=wit, line=fn.lineno)
     rep.ob("L.compact_timeslot", construct, "rank map on %d (ordering, input order) cases" % n, ok=not findings)
     return n
+
+
+# ---------------------------------------------------------------------------------------------------
+def check_event_replay(cc, cls):
+    """parse_interactions interpreted on a two-row log  'u v + p' / 'u v <op> s'  (all orderings of p, s; the graph under
+    construction shows the interval [p, p] after the first row): a second '+' is replayed as add_interaction(u, v, t=s);
+    a '-' at s as one add_interaction(u, v, t in [p, p+1], e=s) exactly when s lies after p."""
+    from .ordertype import enumerate_order_types
+    from .absint import NeedZero
+    repo = cc.repo
+    fn = repo.get(EDGELIST, "parse_interactions")
+    construct = repo.construct(EDGELIST, "parse_interactions") + "[%s]" % cls
+    for op in ("+", "-"):
+        cc.instances += 1
+        syms, cons = ["p", "s"], []
+        for zero in (False, True):
+            try:
+                for ot in enumerate_order_types(syms + (["0"] if zero else []), cons, cc.R):
+                    cfg = dict(cls=cls, directed=cls == "DynDiGraph", removal=True, exists=False, closed=False, L="uv")
+                    lines = [LineV([Tok("u"), Tok("v"), Tok("op", "+"), Tok("p")], sep="ws"),
+                             LineV([Tok("u"), Tok("v"), Tok("op", op), Tok("s")], sep="ws")]
+
+                    def once(ch, ot=ot, cfg=cfg):
+                        w = ReplayLineWorld(dict(cfg), ot, ch, cc.all_methods[cls], cc.all_methods)
+                        ip = CtorInterp(w, ot, max_depth=6)
+                        env = {"lines": ListObj(list(lines)), "comments": Const("#"), "directed": Const(cls == "DynDiGraph"), "delimiter": NONE,
+                               "nodetype": NONE, "timestamptype": Converter("timestamptype"), "keys": NONE}
+                        try:
+                            return ("ok", w, ip.call_function(fn, env))
+                        except AbstractRaise as r:
+                            return ("raise", w, r)
+                    for ch, (kind, w, val) in run_all_choices(once, max_runs=64):
+                        cc.n_runs += 1
+                        if any(v for k, v in ch.items() if isinstance(k, tuple) and k[0].startswith("conversion")):
+                            continue
+                        _judge_replay_line(cc, construct, cls, op, ot, w, kind, val)
+                    cc.n_ordertypes += 1
+                break
+            except NeedZero:
+                if zero:
+                    raise
+
+
+class ReplayLineWorld(LineWorld):
+    """Row fields that name the pair's end points become the node roles U, V; time fields become the symbols p / s;
+    the recording graph shows, after a recorded point add at p, the pair (U, V) with the timeline [[p, p]]."""
+
+    def call(self, ip, f, args, kwargs, node):
+        if isinstance(f, Converter) and f.name == "timestamptype" and len(args) == 1 and isinstance(args[0], Tok) \
+                and args[0].name in ("s", "p") and not args[0].dirty:
+            return Int(args[0].name)
+        return super().call(ip, f, args, kwargs, node)
+
+    def _node(self, x):
+        if isinstance(x, Tok) and x.name in ("u", "v") and not x.dirty and not x.conv:
+            return NodeV(x.name.upper())
+        return x
+
+    def load_subscript(self, ip, obj, key, node):
+        return super().load_subscript(ip, obj, self._node(key), node)
+
+    def node_exists(self, role):
+        return bool(self.cfg.get("exists"))
+
+    def call_method(self, ip, obj, name, args, kwargs, node):
+        if isinstance(obj, NewGraph) and name == "add_interaction":
+            args = [self._node(a) for a in args]
+            kwargs = {k: self._node(v) for k, v in kwargs.items()}
+            r = super().call_method(ip, obj, name, args, kwargs, node)
+            u, v, t, e = obj.calls[-1][:4]
+            if not self.cfg.get("exists") and isinstance(t, Int) and isinstance(e, Const) and e.v is None and \
+                    (u, v) == (NodeV("U"), NodeV("V")):
+                last = ListObj([t, t], persistent=True, tag="interval:last")
+                self.last = self.first = last
+                self.timeline = ListObj([last], persistent=True, tag="timeline")
+                self.datadict = DictObj({Const("t"): self.timeline}, persistent=True, tag="datadict")
+                self.cfg["exists"] = True
+            return r
+        if name == "get" and args:
+            args = [self._node(args[0])] + list(args[1:])
+        return super().call_method(ip, obj, name, args, kwargs, node)
+
+    def contains(self, ip, container, x, node):
+        return super().contains(ip, container, self._node(x), node)
+
+
+def _judge_replay_line(cc, construct, cls, op, ot, w, kind, val):
+    wit = "log 'u v + p' / 'u v %s s' | order: %s" % (op, ot.describe())
+    if kind == "raise":
+        cc.add("C10.replay", construct, "raises:%s:%s" % (op, val.exc), "replaying the log raises %s (%s)" % (val.exc, val.detail), wit,
+               getattr(val.node, "lineno", 0))
+        return
+    if not isinstance(val, NewGraph):
+        cc.add("C10.replay", construct, "no-graph", "parse_interactions returns %r" % (val,), wit)
+        return
+    if val.cls != cls:
+        cc.add("C10.replay", construct, "class", "directed=%s builds a %s" % (cls == "DynDiGraph", val.cls), wit)
+    calls = [(u, v, t, e) for (u, v, t, e, _, _) in val.calls]
+    if any((u, v) != (NodeV("U"), NodeV("V")) for (u, v, _, _) in calls):
+        cc.add("C10.replay", construct, "endpoints:%s" % op, "the row's (u, v) is not forwarded unswapped: %s" % ([(c[0], c[1]) for c in calls],), wit)
+        return
+    first_ok = bool(calls) and isinstance(calls[0][2], Int) and calls[0][2].term() == ("p", 0) and isinstance(calls[0][3], Const) and calls[0][3].v is None
+    if not first_ok:
+        cc.add("C10.replay", construct, "plus-row", "the '+' row at p is replayed as %s, expected add_interaction(u, v, t=p)" % (calls[:1],), wit)
+        return
+    rest = calls[1:]
+    if op == "+":
+        ok = len(rest) == 1 and isinstance(rest[0][2], Int) and rest[0][2].term() == ("s", 0) and isinstance(rest[0][3], Const) and rest[0][3].v is None
+        if not ok:
+            cc.add("C10.replay", construct, "plus-row", "a second '+' row at s is replayed as %s, expected add_interaction(u, v, t=s)" % (rest,), wit)
+        return
+    if ot.cmp_terms(("p", 0), ("s", 0), ">="):
+        if rest:
+            cc.add("C10.replay", construct, "minus-row:not-after-run", "a '-' at or before the last present instant re-adds %s" % (rest,), wit)
+        return
+    ok = len(rest) == 1
+    if ok:
+        u, v, t, e = rest[0]
+        ok = isinstance(t, Int) and isinstance(e, Int) and ot.cmp_terms(e.term(), ("s", 0), "==") and \
+            ot.cmp_terms(("p", 0), t.term(), "<=") and ot.cmp_terms(t.term(), ("p", 1), "<=")
+    if not ok:
+        gap = "s=p+1" if ot.cmp_terms(("s", 0), ("p", 1), "==") else "s>p+1"
+        cc.add("C10.replay", construct, "minus-row:%s" % gap,
+               "after '+' at p, a '-' row at s (%s) is replayed as %s; the pair must stay present through s-1 and the vanishing must be "
+               "logged at s: add_interaction(u, v, t=<instant of the last run>, e=s)" % (gap, [(repr(c[2]), repr(c[3])) for c in rest]), wit)
